@@ -200,10 +200,10 @@ package lexer
 //@ func (*Lexer).skipComment
 //@   sweep C01
 //@   props C03 C13
-//@   ensures[C03,short-comment-ends-at-first-line-break] shortFlag ==> forall(k, 0, len(strComment), strComment[k] != 10 && strComment[k] != 13) && (len(l.chunk) == 0 || l.chunk[0] == 10 || l.chunk[0] == 13)
+//@   ensures[C03,C04,short-comment-ends-at-first-line-break] shortFlag ==> forall(k, 0, len(strComment), strComment[k] != 10 && strComment[k] != 13) && (len(l.chunk) == 0 || l.chunk[0] == 10 || l.chunk[0] == 13)
 //@   ensures[C01,line-only-grows] l.line >= old(l.line) && l.nowToken == old(l.nowToken)
 //@   ensures[C13,short-comment-text-is-verbatim] shortFlag ==> len(strComment) + len(l.chunk) + 2 == old(len(l.chunk)) && forall(k, 0, len(strComment), strComment[k] == old(l.chunk)[k + 2])
-//@   loop 0 invariant [C03,C13] 0 <= index && index <= lenChunk && lenChunk == len(l.chunk) && len(l.chunk) + 2 == old(len(l.chunk)) && forall(k, 0, index, l.chunk[k] != 10 && l.chunk[k] != 13) && forall(k, 0, len(l.chunk), l.chunk[k] == old(l.chunk)[k + 2])
+//@   loop 0 invariant [C03,C04,C13] 0 <= index && index <= lenChunk && lenChunk == len(l.chunk) && len(l.chunk) + 2 == old(len(l.chunk)) && forall(k, 0, index, l.chunk[k] != 10 && l.chunk[k] != 13) && forall(k, 0, len(l.chunk), l.chunk[k] == old(l.chunk)[k + 2])
 //@   loop 0 decreases len(l.chunk) - index
 //@   ensures len(l.chunk) < old(len(l.chunk))
 //@   requires len(l.chunk) >= 2
